@@ -131,6 +131,7 @@ func (c *coreScript) wager(m *coreMarket, who, outcome int, oddsDec string, amou
 		"meta": map[string]interface{}{"selected_odds_type": 1, "selected_odds_value": oddsDec, "is_main_market": false},
 	})
 	bn := c.nextBet
+	bettorBefore := c.e.Bal(c.e.Accts[who])
 	c.out.Op("W %d 1 1 0 999999 %d %d %d %d %s 1000000000000000000 1 %d %s", who, bn, amount, m.n, uidN(sel), decRaw(ov), len(allOp), strings.Join(allOp, " "))
 	err, _ := c.e.Tx(func(ctx sdk.Context) error {
 		_, err := c.bs.Wager(sdk.WrapSDKContext(ctx), &bettypes.MsgWager{Creator: c.e.Accts[who].String(), Props: &bettypes.WagerProps{UID: UID(clsBet, bn), Amount: sdkmath.NewInt(amount), Ticket: tk}})
@@ -139,6 +140,7 @@ func (c *coreScript) wager(m *coreMarket, who, outcome int, oddsDec string, amou
 	if err == nil {
 		c.nextBet++
 		coreSeen.request[UID(clsBet, bn)] = sdkmath.NewInt(amount - c.fee)
+		coreSeen.charged[UID(clsBet, bn)] = bettorBefore.Sub(c.e.Bal(c.e.Accts[who]))
 	}
 	c.finish(err)
 }
@@ -158,6 +160,9 @@ func (c *coreScript) resolve(m *coreMarket, status int, winner int) {
 		return err
 	})
 	c.finish(err)
+	if err == nil {
+		noteResolved(c.e, dumpCore(c.e, c.ix), m.uid)
+	}
 }
 
 func (c *coreScript) endBlock() {
@@ -181,6 +186,7 @@ func (c *coreScript) endBlock() {
 	coreMonitors(c.out, c.h, c.e, c.ix, d, c.markets, true)
 	if !halt {
 		endBlockMonitors(c.out, c.h, c.e, c.ix, preD, d, preBal, userBalances(c.e))
+		settleBoundMonitor(c.out, c.h, c.e, d)
 	}
 	c.height++
 	c.now += 5
